@@ -29,7 +29,7 @@ AGG_GROUPS = [["stddev_pop", "stddev", "std"], ["var_pop", "variance"], ["count"
 NOARG_GROUPS = [["current_date", "cur_date", "curdate"], ["current_uid"], ["current_user"], ["current_gid"], ["current_group"]]
 ROOTOPT_GROUPS = [["maxdepth", "depth"], ["symlinks", "sym"], ["archives", "arc"], ["gitignore", "git"], ["hgignore", "hg"],
                   ["dockerignore", "dock"], ["nogitignore", "nogit"], ["nohgignore", "nohg"], ["nodockerignore", "nodock"],
-                  ["bfs"], ["dfs"], ["mindepth"]]
+                  ["bfs"], ["dfs"], ["mindepth"], ["regexp", "rx"]]
 ARITH_GROUPS = [["+", "plus"], ["-", "minus"], ["*", "mul"], ["/", "div"], ["%", "mod"]]
 FORMATS = ["tabs", "lines", "list", "csv", "json", "html"]
 
